@@ -70,7 +70,7 @@ func serviceOptions(cfg cfgSpec) []vanguard.ServiceOption {
 }
 
 func buildTranscoder(cfg cfgSpec, handler, unknown http.Handler) (*vanguard.Transcoder, error) {
-	svc := vanguard.NewServiceWithSchema(verifService(), handler, serviceOptions(cfg)...)
+	svc := schemaServiceFor(handler, serviceOptions(cfg))
 	return vanguard.NewTranscoder([]*vanguard.Service{svc}, transcoderOptions(unknown)...)
 }
 
